@@ -5,6 +5,10 @@ Decided:
              along their success paths (widths, order, nonterminals, padding, little-endian length fields)
   C11.size   a block's reported size is the bit count of its own serialiser (bits::<BlockBits>() of the same impl),
              capped at 2^24 - 1 bytes and divided by 8; declared constants equal the grammar's sums
+  C11.frame  block framing: the writer flags a block last exactly when none follows, the reader stops on that flag,
+             accepts a block only when its parser consumed exactly the declared size, and clamps reads to that size
+  C11.len    every length / count prefix is the length of the very collection written after it, and the reader
+             reads exactly that many items (ranges start at 0)
   C11.uniq   the reader and the writer enforce the same single-instance rules, each flag tested and set consistently
   C11.trunc  no length / count field is written through a truncating cast
   C11.tab    block type and picture type tables are inverse (C02/C03 check them against the RFC)
@@ -63,6 +67,68 @@ def run(ctx, rep):
     for b in sb:
         c18 = [s for bl in b.blocks for s in bl["s"] if s["rv"]["r"] == "bin" and s["rv"]["op"] in ("Div", "Rem") and op_int(s["rv"]["b"]) == 18]
         rep.check("C11.size", "SEEKTABLE point count = size / 18 with size % 18 == 0", len(c18) == 2, loc_of(b))
+
+    # ---- C11.frame: block framing (last-block flag, exact block length) ------------------------------------------
+    il = F.body("metadata::write_blocks::iter_last::{closure#0}")
+    if il is None:
+        rep.bad("C11.frame", "anchor:write_blocks::iter_last closure", "", "not found")
+    else:
+        good = False
+        for bi, bl in enumerate(il.blocks):
+            for st_ in bl["s"]:
+                rv = st_["rv"]
+                if rv["r"] == "agg" and rv["ak"] == "tuple" and len(rv["ops"]) == 2:
+                    src = [c for k, c in origins(il, rv["ops"][0]) if k == "call"]
+                    if len(src) == 1 and re.search(r"Option::<T>::is_none$", callee_name(src[0])):
+                        pk = backward_slice(il, src[0]["a"][0])["calls"]
+                        good = len(pk) == 1 and re.search(r"Peekable::<I>::peek$", callee_name(pk[0])) is not None
+        rep.check("C11.frame", "writer: a block is flagged last exactly when no block follows (peek().is_none())", good, loc_of(il), "",
+                  "the last-block flag written into the block headers is not `no further block follows`: readers stop early or run into the audio frames")
+    rb = F.body("metadata::BlockIterator::<R>::read_block::{closure#0}::{closure#0}")
+    if rb is None:
+        rep.bad("C11.frame", "anchor:BlockIterator::read_block closure", "", "not found")
+    else:
+        stores = []
+        for bi, bl in enumerate(rb.blocks):
+            for st_ in bl["s"]:
+                if st_["d"]["p"]:
+                    cs = capture_source(F, rb, st_["d"])
+                    if cs and cs[1] and "finished" in place_fields(cs[1]):
+                        rp = root_place(rb, st_["rv"]["o"]) if st_["rv"]["r"] == "use" else None
+                        stores.append((bi, st_, rp is not None and place_fields(rp)[-1:] == ["last"]))
+        rep.check("C11.frame", "reader: iteration stops after the block whose header has the last flag (finished = header.last)", len(stores) == 1 and stores[0][2], loc_of(rb), "",
+                  "BlockIterator's `finished` is not taken from the block header's last flag")
+        pf = ok.path_facts(rb)
+        n_ok = 0
+        for bi, bl in enumerate(rb.blocks):
+            for st_ in bl["s"]:
+                rv = st_["rv"]
+                if st_["d"]["l"] == 0 and not st_["d"]["p"] and rv["r"] == "agg" and rv.get("var") == "Ok":
+                    n_ok += 1
+                    f = pf.get(bi) or frozenset()
+                    good = any(x[0] == "cmp" and x[1] == "Eq" and "const:0" in (x[2], x[3]) and "field:size" in (x[2], x[3]) for x in f)
+                    rep.check("C11.frame", "reader: a block is returned only if its parser consumed exactly the declared size (remaining == 0)", good, rb.loc(st_["sp"]), "",
+                              "a block is accepted although bytes of its declared size were left unread: the next header is read from the wrong offset; facts: %s" % fact_str(f))
+        rep.floor("C11.frame", "block-accepting exits", n_ok, 1)
+    lr = [b for b in F.bodies if b.promoted is None and b.kind != "Closure" and b.path.endswith("read_block::LimitedReader<R> as std::io::Read>::read")]
+    for b in lr:
+        good = False
+        for _, t in b.calls():
+            if re.search(r"::index_mut$", callee_name(t)):
+                for k, x in origins(b, t["a"][1]):
+                    if k == "agg" and x["adt"] in ("std::ops::Range", "std::ops::RangeTo"):
+                        for kk, c in origins(b, x["ops"][-1]):
+                            if kk == "call" and re.search(r"Ord::min$|::min$", callee_name(c)):
+                                a0, a1 = root_place(b, c["a"][0]), backward_slice(b, c["a"][1])
+                                good = a0 is not None and "size" in place_fields(a0) and any(re.search(r"::len$", callee_name(cc)) for cc in a1["calls"]) or \
+                                    "size" in backward_slice(b, c["a"][1])["fields"] and any(re.search(r"::len$", callee_name(cc)) for cc in backward_slice(b, c["a"][0])["calls"])
+        rep.check("C11.frame", "reader: a block's parser can read at most min(remaining block size, buffer length) bytes", good, loc_of(b), "",
+                  "the per-block reader no longer clamps reads to the remaining block size: a block parser can run past its block")
+    if not lr:
+        rep.bad("C11.frame", "anchor:LimitedReader::read", "", "not found")
+
+    from rules import lenlib
+    lenlib.length_prefix_rules(ctx, rep, "C11", floor_w=1, floor_r=1)
 
     # ---- C11.uniq ---------------------------------------------------------------------------------------------
     pairs_expected = {"seektable_read": "MultipleSeekTable", "vorbiscomment_read": "MultipleVorbisComment", "png_read": "MultiplePngIcon", "icon_read": "MultipleGeneralIcon"}
